@@ -1,4 +1,5 @@
 """C03 HLL per-slot max in every mode and width (DESIGN.md section 5 C03)."""
+import validators
 import hll_rules as H
 import chains
 import generic_lints
@@ -21,7 +22,9 @@ def run(facts, tier):
         ("mode byte", H.mode_byte, 1, "mode byte encode/decode are inverse"),
         ("emptiness predicate support", lambda fa: predicates.obligations(fa, ['HllArray','CouponList','hll_sketch_alloc']), 5, "the emptiness predicate still consults every field it depended on in the reviewed tree (spec/predicates.json)"),
         ("coupon identity", H.coupon_identity, 2, "LIST and SET agree on what an already-present coupon is: the whole stored element equals the whole new coupon"),
+        ("aux values", H.aux_values, 2, "the HLL_4 exception table receives actual register values, never values shifted by curMin"),
         ("find() result tests", H.find_result_tests, 4, "the result of the open-addressing find() is only ever split into < 0 (absent) and >= 0 (present, cell 0 included)"),
+        ("argument checkers", lambda fa: validators.checker_obligations(fa, ["hll"]), 2, "the argument checkers of the family (checkLgK, checkNumStdDev, ...) reject exactly the reviewed ranges (spec/checkers.json)"),
         ("tautologies", lambda fa: generic_lints.tautologies(fa, ('hll/',)), 2, "no comparison / assignment / min-max with two identical operands, no if-else with identical arms"),
         ("hazards", lambda fa: hazard_lints.hazards(fa, ('hll/',)), 2, "no 64-bit value silently narrowed at a call of a library function, no numeric_limits<floating>::min() as a lowest value, no random engine constructed inside a loop, no read of a moved-from parameter, no unguarded unsigned `x - c` loop bound (reviewed instances in spec/hazards.json)"),
         ("duplicate operands", lambda fa: generic_lints.duplicate_conjuncts(fa, ('hll/',)), 2, "no logical chain tests the same operand twice (copy-paste of the wrong peer)"),
